@@ -733,6 +733,12 @@ func TestVerifC05ClientKinds(t *testing.T) {
 		rows = append(rows, vfC05Case{Mode: "server", Config: config, MaxServers: 2, Order: "immediate", Procs: 4, Generalise: []int{0, 0, 0, 0, 0},
 			Suites: []vfSuite{{Name: "Raw Requests", Mode: 2, Cases: []vfSuiteTC{{Name: "raw/one", Stream: 1, RawReq: true}, {Name: "unary/success", Stream: 1}}}}})
 	}
+	// TLS with and without client certificates in one run (two kinds of TLS server instance, visited in the order of a Go
+	// map): every instance is started in its own mode with its own credentials. Repeated, since the order varies.
+	for i := 0; i < 10; i++ {
+		rows = append(rows, vfC05Case{Mode: "both", Config: "tls-certs", MaxServers: uint(1 + i%4), Order: "immediate", Procs: 4, Generalise: []int{0, 0, 0, 0, 0},
+			Suites: []vfSuite{{Name: "Basic", Cases: []vfSuiteTC{{Name: "unary/success", Stream: 1}}}, {Name: "TLS Client Certs", TLS: true, Certs: true, Cases: []vfSuiteTC{{Name: "a", Stream: 1}}}}})
+	}
 	shard, shards := verifkit.Shard()
 	for i, c := range rows {
 		if i%shards != shard {
